@@ -23,10 +23,15 @@ def runs(tier, seed):
     if tier == "thorough":
         return [("scripted", ["scripted"])] + \
                [("crash%d" % i, ["crash", "-seed", str(seed * 1000 + i), "-n", "60"]) for i in range(14)] + \
-               [("gen%d" % i, ["gen", "-seed", str(seed * 1000 + 50 + i), "-n", "300"]) for i in range(2)]
+               [("gen%d" % i, ["gen", "-seed", str(seed * 1000 + 50 + i), "-n", "300"]) for i in range(2)] + \
+               [("stores", ["stores"])]
     return [("scripted", ["scripted"])] + \
            [("crash%d" % i, ["crash", "-seed", str(seed * 100 + i), "-n", "4"]) for i in range(4)] + \
-           [("gen0", ["gen", "-seed", str(seed * 100 + 50), "-n", "40"])]   # restarts and stale blocks (with and without logs)
+           [("gen0", ["gen", "-seed", str(seed * 100 + 50), "-n", "40"]),   # restarts and stale blocks (with and without logs)
+            ("stores", ["stores"])]   # one decided store per role, every storage call of a removal failing once: monitor only
+
+
+NO_MODEL_RUNS = ("stores",)
 
 
 # "A block that is not newer than the last processed block is refused" and "processing resumes after the last
